@@ -245,10 +245,10 @@ func stackCounts() (writerWaiting, batchers int) {
 		buf = make([]byte, 2*len(buf))
 	}
 	for _, g := range strings.Split(string(buf), "\n\n") {
-		if strings.Contains(g, ").writingLoop") && strings.Contains(g, "sync.(*Cond).Wait") {
+		if isWriterLoop(g) && strings.Contains(g, "sync.(*Cond).Wait") {
 			writerWaiting++
 		}
-		if strings.Contains(g, ").batchingLoop") {
+		if isBatcherLoop(g) {
 			batchers++
 		}
 	}
@@ -586,7 +586,7 @@ func stallState() (workers, parkedInSend int, batcherInPush bool) {
 				parkedInSend++
 			}
 		}
-		if strings.Contains(g, ").batchingLoop") && strings.Contains(g, ").Push") {
+		if isBatcherLoop(g) && strings.Contains(g, ").Push") {
 			batcherInPush = true
 		}
 	}
@@ -770,6 +770,13 @@ func runSched(in caseIn) (gen.Case, bool) {
 	r.settle(&o0)
 	if o0.Res == 9 {
 		stuck = true
+	}
+	if stuck {
+		// the freshly built writer never came to rest: report it on the first operation
+		if len(ops) == 0 {
+			ops = []opIn{{Op: "close"}}
+		}
+		obs = append(obs, opObs{Res: 9})
 	}
 	for _, op := range ops {
 		if stuck {
@@ -1333,6 +1340,7 @@ type result struct {
 }
 
 func runChild(inFile, outFile string) {
+	learnLoopNames()
 	raw, err := os.ReadFile(inFile)
 	if err != nil {
 		panic(err)
